@@ -3,7 +3,10 @@
 // Package stdlib provides wrappers of standard library packages to be imported natively in Yaegi.
 package stdlib
 
-import "reflect"
+import (
+	"log/slog"
+	"reflect"
+)
 
 // Symbols variable stores the map of stdlib symbols per package.
 var Symbols = map[string]map[string]reflect.Value{}
@@ -19,6 +22,11 @@ func init() {
 	Symbols["."] = map[string]reflect.Value{
 		"MapTypes": reflect.ValueOf(MapTypes),
 	}
+}
+
+// slogNewLogLogger returns a wrapped logger, see restricted.go (where a test pins the line numbers).
+func slogNewLogLogger(h slog.Handler, level slog.Level) *logLogger {
+	return &logLogger{slog.NewLogLogger(h, level)}
 }
 
 // Provide access to go standard library (http://golang.org/pkg/)
